@@ -11,7 +11,7 @@
 (* semantics and the observed trees is a NONCONFORMANCE (register 3), after   *)
 (* which the model is re-synchronised with the observation.                   *)
 (***************************************************************************)
-EXTENDS Sys, Json, IOUtils
+EXTENDS Sys, StateInv, Json, IOUtils
 
 VARIABLES tid, l, phase, lastUser, corrupt,
           base0,   \* the synchronised base tree of the trace
@@ -83,7 +83,7 @@ TUser ==
         /\ IF Ev.ok = 1 /\ ap
              THEN UserEffect(s, op, o[s])
              ELSE /\ UNCHANGED <<written, killed, expect, exOK, chg, anc, origin>>
-                  /\ TagEffect(s, op, FALSE, chg, anc)
+                  /\ TagEffect(s, op, FALSE, chg, anc, tr[s])
         /\ tr' = o
         /\ lastUser' = [lastUser EXCEPT ![s] = o[s]]
   /\ UNCHANGED <<dropped, merged, phase, corrupt>> /\ UNCHANGED Aux
@@ -191,9 +191,20 @@ TNotify ==
   /\ pfault' = IF pfault # 0 /\ Ev.ntype = NoteFor(pfault) THEN 0 ELSE pfault
   /\ UNCHANGED <<tr, phase, lastUser, corrupt, base0, kase, nres>> /\ LedgerFrame /\ UNCHANGED Sched
   /\ Advance
+\* C08 / C11: the table invariants on the observed sync state after the step (when the run records it)
+StateChecks(ob) ==
+  /\ Check(FoundByOid(ob), "FoundByOid")
+  /\ Check(FoundByPath(ob), "FoundByPath")
+  /\ Check(NoStaleOidSlot(ob), "NoStaleOidSlot")
+  /\ Check(NoStalePathSlot(ob), "NoStalePathSlot")
+  /\ Check(OneOwnerPerOid(ob), "OneOwnerPerOid")
+  /\ Check(PendingExact(ob), "PendingExact")
+  /\ Check(PersistExact(ob), "PersistExact")
+  /\ IF "oidx" \in DOMAIN ob.reload THEN Check(ReloadSame(ob), "ReloadSame") ELSE TRUE
 TStepEnd ==
   /\ Ev.ev = "StepEnd"
   /\ Check(pfault = 0, "FaultNotified")
+  /\ IF "st" \in DOMAIN Ev THEN StateChecks(Ev.st) ELSE TRUE
   /\ IF "post" \in DOMAIN Ev
        THEN LET o == Obs(Ev.post) IN
               /\ Conform(tr = o, "StepEffect")
@@ -321,6 +332,16 @@ TRestart ==
   /\ UNCHANGED <<phase, lastUser, corrupt, base0, kase, nres, pfault, notif, cur, aging, xf, runA>> /\ LedgerFrame
   /\ Advance
 
+\* state-level family: a raw event tuple (or a discard) was applied to a real SyncState; only the table is judged
+TStateOp ==
+  /\ Ev.ev \in {"StateOp", "StateBase"}
+  /\ IF Ev.ev = "StateOp"
+       THEN /\ Check(Ev.exc = "", "NoException")
+            /\ IF Ev.exc = "" THEN StateChecks(Ev.st) ELSE TRUE
+       ELSE TRUE
+  /\ UNCHANGED <<tr, phase, lastUser, corrupt>> /\ LedgerFrame /\ UNCHANGED Aux
+  /\ Advance
+
 \* events that carry no obligation for this module (other modules extend the disjunction)
 Skippable == {"StepBegin", "CorruptRead", "Stop", "Crash", "Note"}
 TSkip ==
@@ -332,7 +353,7 @@ TSkip ==
 TraceNext ==
   /\ l <= Len(Tr)
   /\ \/ TBase \/ TUser \/ TECall \/ TStepEnd \/ TQuiet \/ TNoQuiet \/ TEscape \/ TAfter \/ TResolve
-     \/ TCorrupt \/ TSkip \/ TCase \/ TFault \/ TNotify \/ TIntake \/ TSyncEntry \/ TRestart \/ TSecondRun \/ TCompare
+     \/ TCorrupt \/ TSkip \/ TCase \/ TFault \/ TNotify \/ TIntake \/ TSyncEntry \/ TRestart \/ TSecondRun \/ TCompare \/ TStateOp
 TraceSpec == TraceInit /\ [][TraceNext]_tvars
 
 ASSUME TLCSet(1, {}) /\ TLCSet(2, 0) /\ TLCSet(3, {})
